@@ -335,7 +335,7 @@ Spec == Init /\ [][Next]_vars
 
 Map(l) == IF l \in {"dsrc", "dcnt"} THEN "src" ELSE l
 Done == pc = "done" /\ err = "none"
-WellFormed == ~HasF11(lines)
+WellFormed == ~HasF11(IF round = 2 THEN lines1 ELSE lines)
 
 \* C13: every line gets the label the declarative rule gives it
 LabelsAreDecl == (Done /\ WellFormed) => LET d == Decl(lines) IN \A j \in 1..Len(lines) : Map(labels[j]) = d[j]
